@@ -238,6 +238,10 @@ def knob_class(k):
 def run_case(case):
     from odml.validation import Validation
     doc = docs.build(base_spec(case["shape"]))
+    try:
+        stored = Validation(doc)        # an instance that ran before the document was edited; asked again below
+    except Exception:
+        stored = None
     for k in case["knobs"]:
         try:
             if not apply_knob(doc, k):
@@ -248,11 +252,20 @@ def run_case(case):
                     "states": 0}
     fails, outcomes, execs, nontrivial = [], set(), 0, 0
     roots = objects(doc)
-    for tag, root in roots:
+    if stored is not None:
+        roots = roots + [("D", doc, "report-of-earlier-instance")]
+    for entry in roots:
+        tag, root = entry[0], entry[1]
         kind = "document" if tag == "D" else ("property" if ":" in tag else "section")
+        if len(entry) > 2:
+            kind = "document:" + entry[2]
         execs += 1
         try:
-            val = Validation(root)
+            if len(entry) > 2:
+                val = stored
+                val.report()            # "validates the registered object and returns a results report"
+            else:
+                val = Validation(root)
             got = [(e.obj, e.validation_id.value if e.validation_id is not None else None, e.rank)
                    for e in val.errors]
         except Exception as exc:
